@@ -127,23 +127,27 @@ Definition get_to (m : message) : res (message * fromto) :=
       | _ => Err
       end
   end.
-(* GetCSeq decodes on every call and leaves the header as received *)
-Definition get_cseq (m : message) : res cseq :=
+(* GetCSeq: like the other typed getters it stores the decoded value in the header, so the
+   header is re-encoded ("%d %s") when the message is written *)
+Definition get_cseq_m (m : message) : res (message * cseq) :=
   match get_header (s2b "CSeq") (m_headers m) with
   | None => Err
   | Some h => match h_val h with
-              | HCSeq c => Ok c
-              | HRaw s => parse_cseq s
+              | HCSeq c => Ok (m, c)
+              | HRaw s => let! c := parse_cseq s in
+                          Ok (with_headers m (update_header (s2b "CSeq") (fun _ => HCSeq c) (m_headers m)), c)
               | _ => Err
               end
   end.
+Definition get_cseq (m : message) : res cseq := rmap snd (get_cseq_m m).
 
 (* GetMethod *)
-Definition get_method (m : message) : res bytes :=
+Definition get_method_m (m : message) : res (message * bytes) :=
   match m_start m with
-  | SReq meth _ _ => Ok meth
-  | SResp _ _ _ => let! c := get_cseq m in Ok (cs_method c)
+  | SReq meth _ _ => Ok (m, meth)
+  | SResp _ _ _ => let! (m1, c) := get_cseq_m m in Ok (m1, cs_method c)
   end.
+Definition get_method (m : message) : res bytes := rmap snd (get_method_m m).
 
 (* PopVia: pop one via-param, or remove the header when it held at most one *)
 Definition pop_via (m : message) : res message :=
@@ -219,8 +223,8 @@ Definition top_via (m : message) : res (message * via_param) :=
 
 (* GetClientTransaction: "<CSeq method>-<top Via branch>" *)
 Definition get_client_transaction (m : message) : res (message * bytes) :=
-  let! c := get_cseq m in
-  let! (m1, v) := top_via m in
+  let! (m0, c) := get_cseq_m m in
+  let! (m1, v) := top_via m0 in
   let! b := of_opt (via_get_branch v) in
   Ok (m1, cs_method c ++ "-"%char :: b).
 
